@@ -4,6 +4,7 @@ import (
 	"fmt"
 	"go/token"
 	"go/types"
+	"sort"
 
 	"golang.org/x/tools/go/ssa"
 )
@@ -14,6 +15,11 @@ func (f *frame) execInstr(in ssa.Instruction) {
 	case *ssa.DebugRef:
 		return
 	case *ssa.Alloc:
+		if f.stackStruct(x) {
+			f.cur = f.cur.withStk(x, v.zeroVal(deref(x.Type())))
+			f.env[x] = StackAddrV{A: x}
+			return
+		}
 		if f.deadVarargs(x) {
 			// argument array of an effect-free (logging/metrics/formatting) call: not modelled
 			f.env[x] = v.ctx.Fresh("deadargs", SRef)
@@ -22,7 +28,14 @@ func (f *frame) execInstr(in ssa.Instruction) {
 		r, st := v.allocZero(f.cur, "alloc:"+x.Comment, deref(x.Type()))
 		f.cur = st
 		f.env[x] = r
+		if f.isRoot && nonEscaping(x) {
+			v.localRefs = append(v.localRefs, r)
+		}
 	case *ssa.FieldAddr:
+		if sa, ok := f.val(x.X).(StackAddrV); ok {
+			f.env[x] = StackAddrV{A: sa.A, Path: append(append([]int(nil), sa.Path...), x.Field)}
+			return
+		}
 		obj := asTerm(f.val(x.X))
 		f.safety("nil", Not(Eq(obj, TNull)), x.Pos())
 		st := deref(x.X.Type())
@@ -159,6 +172,9 @@ func (f *frame) execInstr(in ssa.Instruction) {
 func (f *frame) store(addr Val, t types.Type, val Val, pos token.Pos) {
 	v := f.v
 	switch a := addr.(type) {
+	case StackAddrV:
+		cur := f.cur.stk[a.A]
+		f.cur = f.cur.withStk(a.A, setPath(cur, deref(a.A.Type()), a.Path, val))
 	case AddrV:
 		f.cur = v.storeField(f.cur, a.Obj, a.T, a.Field, val)
 	case Term:
@@ -173,6 +189,12 @@ func (f *frame) store(addr Val, t types.Type, val Val, pos token.Pos) {
 func (f *frame) load(addr Val, t types.Type, pos token.Pos) Val {
 	v := f.v
 	switch a := addr.(type) {
+	case StackAddrV:
+		cur := f.cur.stk[a.A]
+		for _, i := range a.Path {
+			cur = cur.(*StructV).Get(i)
+		}
+		return cur
 	case AddrV:
 		return v.loadField(f.cur, a.Obj, a.T, a.Field, false)
 	case Term:
@@ -840,4 +862,109 @@ func (f *frame) calleeKey(call *ssa.CallCommon) string {
 		return f.v.eng.ifaceKey(call.Value.Type(), call.Method)
 	}
 	return ""
+}
+
+// setPath returns struct value sv (of type t) with the field at path replaced by val.
+func setPath(sv Val, t types.Type, path []int, val Val) Val {
+	if len(path) == 0 {
+		return val
+	}
+	old := sv.(*StructV)
+	st := structOf(t)
+	i := path[0]
+	inner := setPath(old.Get(i), st.Field(i).Type(), path[1:], val)
+	return &StructV{T: t, get: func(j int) Val {
+		if j == i {
+			return inner
+		}
+		return old.Get(j)
+	}}
+}
+
+// stackStruct: a struct-typed local whose address never escapes and that is not carried
+// around a loop: it is kept by value instead of in the heap arrays.
+func (f *frame) stackStruct(a *ssa.Alloc) bool {
+	if d, ok := f.stkMemo[a]; ok {
+		return d
+	}
+	if f.stkMemo == nil {
+		f.stkMemo = map[*ssa.Alloc]bool{}
+	}
+	ok := kindOf(deref(a.Type())) == KStruct && f.loops != nil
+	home := f.loopSet(a.Block())
+	var check func(v ssa.Value) bool
+	check = func(v ssa.Value) bool {
+		for _, r := range *v.Referrers() {
+			switch u := r.(type) {
+			case *ssa.DebugRef:
+			case *ssa.FieldAddr:
+				ft := structOf(deref(u.X.Type())).Field(u.Field).Type()
+				if kindOf(ft) == KArray {
+					return false
+				}
+				if !check(u) {
+					return false
+				}
+			case *ssa.Store:
+				if u.Addr != v {
+					return false // the address itself is stored somewhere
+				}
+				if f.loopSet(u.Block()) != home {
+					return false
+				}
+			case *ssa.UnOp:
+				if u.Op != token.MUL {
+					return false
+				}
+			default:
+				return false
+			}
+		}
+		return true
+	}
+	if ok {
+		ok = check(a)
+	}
+	f.stkMemo[a] = ok
+	return ok
+}
+
+// loopSet identifies the set of loops a block belongs to.
+func (f *frame) loopSet(b *ssa.BasicBlock) string {
+	var hs []int
+	for h, li := range f.loops {
+		if li.body[b] {
+			hs = append(hs, h.Index)
+		}
+	}
+	sort.Ints(hs)
+	return fmt.Sprint(hs)
+}
+
+// nonEscaping: the allocation's address is only ever used to read and write it (fields included).
+func nonEscaping(a *ssa.Alloc) bool {
+	var check func(v ssa.Value) bool
+	check = func(v ssa.Value) bool {
+		for _, r := range *v.Referrers() {
+			switch u := r.(type) {
+			case *ssa.DebugRef:
+			case *ssa.FieldAddr:
+				if !check(u) {
+					return false
+				}
+			case *ssa.Store:
+				if u.Addr != v {
+					return false
+				}
+			case *ssa.UnOp:
+				if u.Op != token.MUL {
+					return false
+				}
+			default:
+				return false
+			}
+		}
+		return true
+	}
+	return check(a)
 }
